@@ -1,7 +1,7 @@
 (** C16 — connection IDs: limits honoured both ways, retirements reported, routing clean.
     Only statements live here; each is closed by [exact] of a lemma proved in ConnIDs/. *)
 From Coq Require Import List ZArith Bool.
-From V Require Import Gen.Params Lib.Hex ConnIDs.Model ConnIDs.ProofsGen ConnIDs.ProofsMgr ConnIDs.ProofsMgr2 ConnIDs.ProofsMgr3 ConnIDs.Routing ConnIDs.ProofsRouting.
+From V Require Import Gen.Params Lib.Hex ConnIDs.Model ConnIDs.ProofsGen ConnIDs.ProofsMgr ConnIDs.ProofsMgr2 ConnIDs.ProofsMgr3 ConnIDs.ProofsMgr4 ConnIDs.Routing ConnIDs.ProofsRouting.
 Import ListNotations.
 Open Scope Z_scope.
 
@@ -47,7 +47,7 @@ Print Assumptions C16_limits_at_least_two.
     lim (the first ID beyond is refused); any other error only for conflicting contents of
     a queued or probing sequence number. *)
 Theorem C16_accept_within_advertised : forall init ops st seq rpt c tok d,
-  reachP op_ok init ops st -> m_acid st <> [] -> 0 <= rpt <= seq ->
+  init <> [] -> reachP op_okc init ops st -> 0 <= rpt <= seq ->
   let st' := fst (mgr_add seq rpt c tok d st) in
   let r := snd (mgr_add seq rpt c tok d st) in
   let lim := Z.max MaxActiveConnectionIDs (m_advlimit st) in
@@ -60,8 +60,30 @@ Theorem C16_accept_within_advertised : forall init ops st seq rpt c tok d,
   (forall L, NoDup L -> incl (held st') L -> zlength L <= lim -> r <> RLimit) /\
   (r = ROther -> exists x, (In x (m_queue st) \/ exists id, In (id, x) (m_probing st)) /\
                            n_seq x = seq /\ cid_eqb (n_cid x) c && (n_tok x =? tok) = false).
-Proof. exact accept_within_limit. Qed.
+Proof. exact accept_within_limit_nz. Qed.
 Print Assumptions C16_accept_within_advertised.
+
+(** round 3: the hypothesis "the active connection ID is non-empty" is a theorem: a manager
+    created with a non-empty destination connection ID that is only handed non-empty IDs
+    ([op_okc] = [op_ok] + the parser's "no zero-length ID in NEW_CONNECTION_ID") keeps a
+    non-empty active ID. The zero-length case is its own statement: every frame is a
+    PROTOCOL_VIOLATION that changes nothing, and path probing needs no new ID. *)
+Theorem C16_active_cid_nonempty : forall init ops st,
+  init <> [] -> reachP op_okc init ops st -> m_acid st <> [].
+Proof. exact active_cid_nonempty. Qed.
+Print Assumptions C16_active_cid_nonempty.
+
+Theorem C16_zero_length_refused : forall st seq rpt c tok d id,
+  m_acid st = [] ->
+  mgr_add seq rpt c tok d st = (st, RProto) /\
+  (m_closed st = false -> mgr_path_get id st = (st, ROk, [], true) /\ mgr_path_retire id st = (st, ROk)).
+Proof. exact zero_length_refused. Qed.
+Print Assumptions C16_zero_length_refused.
+
+Example C16_history_nonvacuous_nz :
+  reachP op_okc w_init (rev w_good) (mgr_run w_good (mgr_init w_init)) /\ w_init <> [].
+Proof. exact (conj (hist_okcb_reach w_init w_good (proj1 w_good_okc)) (proj2 w_good_okc)). Qed.
+Print Assumptions C16_history_nonvacuous_nz.
 
 (** the advertised limit is exactly what the last SetConnectionIDLimit call said *)
 Theorem C16_advertised_limit_follows : forall o st,
@@ -138,6 +160,23 @@ Theorem C16_tokens_exact : forall init ops st,
 Proof. exact tokens_exact. Qed.
 Print Assumptions C16_tokens_exact.
 
+(** (d) set level: [reg t log] is what the transport's resetTokens map holds for t after the
+    callbacks (a map entry depends only on the last call naming the key). If the callbacks
+    keep the discipline [disc] (never register a registered token, never remove an
+    unregistered one - true whenever the peer gives every ID its own token), the map is
+    exactly the set of tokens of the IDs in use, and empty after Close. *)
+Theorem C16_tokens_exact_set : forall init ops st,
+  reachP tok_ok init ops st -> disc (m_log st) = true ->
+  (forall t, reg t (m_log st) = true <-> inuse st t = 1) /\
+  (forall t, inuse st t = 0 \/ inuse st t = 1) /\
+  (disc (m_log (mgr_close st)) = true -> forall t, reg t (m_log (mgr_close st)) = false).
+Proof. exact tokens_exact_set. Qed.
+Print Assumptions C16_tokens_exact_set.
+
+Example C16_tokens_discipline_nonvacuous : disc (m_log (mgr_run w_good (mgr_init w_init))) = true.
+Proof. exact w_good_disc. Qed.
+Print Assumptions C16_tokens_discipline_nonvacuous.
+
 (** (d)/(e) Routing. For every history of generator calls without RemoveAll: each
     connection ID is routed to the connection exactly as often as it occurs among the
     client's original destination ID (until handshake completion + expiry), the active IDs
@@ -154,6 +193,26 @@ Theorem C16_routing_exact : forall i cd l0 ops,
                               forall c, cnt c ids = routed i cd g c).
 Proof. exact gen_routing_exact. Qed.
 Print Assumptions C16_routing_exact.
+
+(** (d) set level: if no connection ID is handed to the runner twice (fresh generated IDs,
+    different from the two initial ones), the IDs the generator knows are pairwise distinct
+    and the runner routes exactly them, each once. *)
+Theorem C16_routing_exact_set : forall i cd l0 ops,
+  Forall not_close ops ->
+  let g := gen_run ops (gen_init i cd l0) in
+  (forall c, init_count i cd c + adds c (g_log g) <= 1) ->
+  NoDup (gen_all_ids g) /\
+  (forall c, routed i cd g c = 1 <-> In c (gen_all_ids g)) /\
+  (forall c, routed i cd g c = 0 \/ routed i cd g c = 1).
+Proof. exact gen_routing_exact_set. Qed.
+Print Assumptions C16_routing_exact_set.
+
+Example C16_routing_fresh_nonvacuous :
+  let ops := [GSetMax 2 [Some [3]]; GHsDone 10; GRetire 1 [1] 20 [Some [4]]; GRemoveRetired 15] in
+  Forall not_close ops /\
+  forall c, init_count [1] (Some [2]) c + adds c (g_log (gen_run ops (gen_init [1] (Some [2]) false))) <= 1.
+Proof. exact gen_fresh_example. Qed.
+Print Assumptions C16_routing_fresh_nonvacuous.
 
 Theorem C16_expired_removed_exactly : forall i cd l0 ops now,
   Forall not_close ops ->
